@@ -17,6 +17,7 @@ Definition c06_model_ok (c : c06case) : bool :=
   | PortMem k big v mem_le mem_be row_le row_be =>
       (* the value-level model of Model/Port.v on the same value *)
       list_eqb Z.eqb row_le (row_z (full_row big (8 * k) v)) && list_eqb Z.eqb row_be (row_z (full_row big (8 * k) v))
+  | PortsShort _ _ _ => c06_spec_ok c
   | PortDtype mask out =>
       if mask <? 0 then c06_spec_ok c else
       match port_dtype_bits mask, out with
